@@ -159,6 +159,18 @@ CHECKS = {
         ref="5/C16"),
 }
 
+CHECKS["C20"] = dict(
+    text="The real engine step functions of the threaded GeckoUdpSocket executed one by one with a symbolic real-valued "
+         "clock: one send step from an arbitrary queue/clock state (send iff the throttle interval has passed, head of the "
+         "queue, send instant stamped => FIFO and pacing by induction) plus a multi-iteration pacing run; first-match "
+         "dispatch over <=4 handlers with symbolic accept/raise behaviour and exception isolation; the life of a real "
+         "request handler over a stepped engine loop with free timeout, retry count, time steps and answer instant "
+         "(exactly N retransmissions then removal / removal at the answer and silence afterwards); the blocking client's "
+         "real handshake against the real simulator under symbolic loss bits.",
+    note="Engine iterations stepped in _thread_func order, no real threads; socket double; handshake on the concrete "
+         "default snapshot with 5 (quick) / 8 (thorough) loss bits.",
+    ref="5/C20")
+
 NOT_APPLICABLE = {
     "C09": "whole-stack liveness/bounded-time recovery over >= 12 concurrently polling tasks and fault scripts lasting "
            "hundreds of virtual seconds: no inductive decomposition within reach of bounded symbolic execution "
